@@ -6,6 +6,7 @@ CONSTANTS
   OddKinds = {}
   MaxSetup = 0
   MaxProbes = 0
+  MaxAfter = 0
   DotNameHandled = TRUE
   RpcPosCheckedFirst = TRUE
   Utf8LabelsHandled = TRUE
